@@ -1,2 +1,720 @@
 (* Proofs for C08. *)
-From WI Require Import Lib.Base Lib.Info Model.Cost.
+From WI Require Import Lib.Base Lib.Info Model.Base64 Model.Cost.
+From Coq Require Import ZifyN ZifyNat ZifyBool Lia.
+Open Scope N_scope.
+
+(* ------------------------------------------------------------------------------------- *)
+(* basics                                                                                 *)
+(* ------------------------------------------------------------------------------------- *)
+Lemma lenN_acc_spec : forall A (l : list A) acc, lenN_acc l acc = acc + N.of_nat (length l).
+Proof. induction l; intros; cbn [lenN_acc length]; [lia|]. rewrite IHl. lia. Qed.
+
+Lemma lenN_length : forall A (l : list A), lenN l = N.of_nat (length l).
+Proof. intros. unfold lenN. rewrite lenN_acc_spec. lia. Qed.
+
+Lemma lenN_nil : forall A, lenN (@nil A) = 0.
+Proof. reflexivity. Qed.
+
+Lemma lenN_cons : forall A (x : A) l, lenN (x :: l) = lenN l + 1.
+Proof. intros. rewrite !lenN_length. cbn [length]. lia. Qed.
+
+Lemma lenN_app : forall A (a b : list A), lenN (a ++ b) = lenN a + lenN b.
+Proof. intros. rewrite !lenN_length, app_length. lia. Qed.
+
+Lemma log_cost_app : forall l1 l2, log_cost (l1 ++ l2) = log_cost l1 + log_cost l2.
+Proof. induction l1; intros; cbn [app log_cost]; [lia|]. rewrite IHl1. lia. Qed.
+
+Lemma split_at_some : forall l n a b, split_at n l = Some (a, b) -> l = a ++ b /\ lenN a = n.
+Proof.
+  induction l as [|x l IH]; intros n a b H; cbn [split_at] in H.
+  - destruct (n =? 0) eqn:E; [|discriminate]. inversion H; subst. split; [reflexivity|]. rewrite lenN_nil. lia.
+  - destruct (n =? 0) eqn:E.
+    + inversion H; subst. split; [reflexivity|]. rewrite lenN_nil. lia.
+    + destruct (split_at (n - 1) l) as [[a' b']|] eqn:S; [|discriminate].
+      inversion H; subst. destruct (IH _ _ _ S) as [-> L]. split; [reflexivity|].
+      rewrite lenN_cons. lia.
+Qed.
+
+Lemma split_at_len : forall l n a b, split_at n l = Some (a, b) -> lenN l = n + lenN b.
+Proof. intros. destruct (split_at_some _ _ _ _ H) as [-> L]. rewrite lenN_app. lia. Qed.
+
+Lemma split_at_none : forall l n, split_at n l = None -> lenN l < n.
+Proof.
+  induction l as [|x l IH]; intros n H; cbn [split_at] in H.
+  - destruct (n =? 0) eqn:E; [discriminate|]. rewrite lenN_nil. lia.
+  - destruct (n =? 0) eqn:E; [discriminate|].
+    destruct (split_at (n - 1) l) as [[a' b']|] eqn:S; [discriminate|].
+    apply IH in S. rewrite lenN_cons. lia.
+Qed.
+
+(* ------------------------------------------------------------------------------------- *)
+(* C08_read_cap                                                                           *)
+(* ------------------------------------------------------------------------------------- *)
+Lemma read_len_le : forall s, (read_len s <= N.to_nat max_read_size)%nat.
+Proof. intros. unfold read_len. destruct (s_len s); [apply Nat.le_min_r|apply Nat.le_refl]. Qed.
+
+Lemma read_input_length : forall s, length (read_input s) = read_len s.
+Proof. intros. unfold read_input. rewrite map_length, seq_length. reflexivity. Qed.
+
+Lemma read_cap : forall s, (length (read_input s) <= N.to_nat max_read_size)%nat.
+Proof. intros. rewrite read_input_length. apply read_len_le. Qed.
+
+(* a finite input shorter than the cap is read whole; a longer one is cut at the cap *)
+Lemma read_input_finite : forall data,
+  read_input (stream_of data) = firstn (N.to_nat max_read_size) data.
+Proof.
+  intros. unfold read_input, read_len, stream_of. cbn [s_at s_len].
+  generalize (N.to_nat max_read_size). intro k. revert k.
+  induction data as [|x d IH]; intros k.
+  - cbn [length]. rewrite Nat.min_0_l. cbn. now rewrite firstn_nil.
+  - destruct k as [|k]; [rewrite Nat.min_0_r; reflexivity|].
+    cbn [length]. rewrite <- Nat.succ_min_distr. cbn [seq map firstn nth]. f_equal.
+    rewrite <- seq_shift, map_map. cbn [nth]. apply IH.
+Qed.
+
+(* an endless input: exactly the cap *)
+Lemma read_input_endless : forall f, length (read_input (mkstream f None)) = N.to_nat max_read_size.
+Proof. intros. rewrite read_input_length. reflexivity. Qed.
+
+(* ------------------------------------------------------------------------------------- *)
+(* io.ReadAll growth: 4 * cost <= 25 * m + 2048                                           *)
+(* ------------------------------------------------------------------------------------- *)
+Fixpoint sumN (l : list N) : N := match l with [] => 0 | x :: r => x + sumN r end.
+
+Lemma log_cost_map_grow : forall l, log_cost (map Grow l) = sumN l.
+Proof. induction l; cbn [map log_cost sumN alloc_sz]; [reflexivity|]. now rewrite IHl. Qed.
+
+Lemma grow_cap_bounds : forall c, 512 <= c -> 5 * c <= 4 * grow_cap c /\ 4 * grow_cap c <= 5 * c + 768.
+Proof.
+  intros c H. unfold grow_cap. replace (c <? 256) with false by lia.
+  pose proof (N.div_mod (c + 768) 4 ltac:(lia)) as D.
+  pose proof (N.mod_lt (c + 768) 4 ltac:(lia)) as M. lia.
+Qed.
+
+Lemma readall_caps_bound : forall fuel c m, 512 <= c -> c <= m ->
+  4 * sumN (readall_caps fuel c m) + 20 * c <= 25 * m + 768.
+Proof.
+  induction fuel as [|f IH]; intros c m Hc Hm; cbn [readall_caps sumN]; [lia|].
+  replace (c <=? m) with true by lia. cbn [sumN].
+  destruct (grow_cap_bounds c Hc) as [G1 G2].
+  destruct (N.leb_spec (grow_cap c) m) as [L|L].
+  - specialize (IH (grow_cap c) m ltac:(lia) L). lia.
+  - destruct f as [|f']; cbn [readall_caps sumN]; [lia|].
+    replace (grow_cap c <=? m) with false by lia. cbn [sumN]. lia.
+Qed.
+
+Lemma readall_cost_bound : forall m, 4 * readall_cost m <= 25 * m + 2048.
+Proof.
+  intros m. unfold readall_cost, readall_log. rewrite log_cost_map_grow. cbn [sumN].
+  destruct (N.leb_spec 512 m) as [L|L].
+  - pose proof (readall_caps_bound (N.to_nat (N.size m) * 4 + 8) 512 m ltac:(lia) L). lia.
+  - destruct (N.to_nat (N.size m) * 4 + 8)%nat as [|f]; cbn [readall_caps sumN]; [lia|].
+    replace (512 <=? m) with false by lia. cbn [sumN]. lia.
+Qed.
+
+Lemma readall_cost_le : forall m, readall_cost m <= 7 * m + 512.
+Proof. intros. pose proof (readall_cost_bound m). lia. Qed.
+
+Lemma read_input_cost_bound : forall n, read_input_cost n <= 7 * n + 512.
+Proof.
+  intros. unfold read_input_cost. pose proof (readall_cost_le (N.min n max_read_size)). lia.
+Qed.
+
+Lemma readall_log_grow : forall m a, In a (readall_log m) -> exists s, a = Grow s.
+Proof.
+  intros m a H. unfold readall_log in H. apply in_map_iff in H. destruct H as [s [<- _]]. now exists s.
+Qed.
+
+(* ------------------------------------------------------------------------------------- *)
+(* allocation requests never trust a length field                                         *)
+(* ------------------------------------------------------------------------------------- *)
+(* a request made from a length is backed by the bytes that remain, or is at most a fixed
+   constant (8 KiB) *)
+Definition alloc_ok (a : alloc) : Prop :=
+  match a with Make s r => s <= r \/ s <= fixed_max | Grow _ => True end.
+Definition log_ok (l : log) : Prop := Forall alloc_ok l.
+
+Lemma alloc_ok_trusting : forall a, alloc_ok a <-> alloc_trusting a = false.
+Proof.
+  intros [s r|s]; cbn [alloc_ok alloc_trusting]; [|tauto].
+  split; intro H; [destruct H; lia|].
+  destruct (N.ltb_spec r s); destruct (N.ltb_spec fixed_max s); cbn in H; try discriminate; lia.
+Qed.
+
+Lemma log_ok_trusting : forall l, log_ok l <-> log_trusting l = false.
+Proof.
+  induction l as [|a l IH]; cbn [log_trusting existsb].
+  - split; [reflexivity|constructor].
+  - rewrite Bool.orb_false_iff, <- IH, <- alloc_ok_trusting. split.
+    + intro H. inversion H; subst. tauto.
+    + intros [H1 H2]. now constructor.
+Qed.
+
+Lemma log_ok_app : forall l1 l2, log_ok l1 -> log_ok l2 -> log_ok (l1 ++ l2).
+Proof. intros. apply Forall_app. tauto. Qed.
+
+Lemma log_ok_readall : forall m, log_ok (readall_log m).
+Proof.
+  intros m. apply Forall_forall. intros a H. destruct (readall_log_grow _ _ H) as [s ->]. exact I.
+Qed.
+
+Lemma const_ok : forall s r, s <= fixed_max -> alloc_ok (Make s r).
+Proof. intros. right. assumption. Qed.
+Lemma backed_ok : forall s r, s <= r -> alloc_ok (Make s r).
+Proof. intros. left. assumption. Qed.
+
+Lemma lenN_drop_le : forall A n (l : list A), lenN (drop n l) <= lenN l.
+Proof.
+  induction n; intros l; cbn [drop]; [lia|]. destruct l; [lia|]. rewrite lenN_cons. specialize (IHn l). lia.
+Qed.
+
+(* ------------------------------------------------------------------------------------- *)
+(* SSH1 (repaired code)                                                                   *)
+(* ------------------------------------------------------------------------------------- *)
+Ltac split_read n r a b S :=
+  destruct (split_at n r) as [[a b]|] eqn:S;
+  [pose proof (split_at_len _ _ _ _ S) | pose proof (split_at_none _ _ S)].
+
+Ltac alloc_tac := first [exact I | apply const_ok; unfold fixed_max; lia | apply backed_ok; lia].
+Ltac log_tac :=
+  unfold log_ok in *;
+  repeat match goal with
+  | |- Forall _ [] => apply Forall_nil
+  | |- Forall _ (_ :: _) => apply Forall_cons; [alloc_tac|]
+  | |- Forall _ (_ ++ _) => apply Forall_app; split
+  | H : Forall _ ?l |- Forall _ ?l => exact H
+  end.
+
+Lemma ssh1_mpint_spec : forall r,
+  match ssh1_read_mpint true r with
+  | (Ok (_, r'), l) => log_cost l + 2 * lenN r' <= 2 * lenN r /\ lenN r' <= lenN r /\ log_ok l
+  | (_, l) => log_cost l <= 2 * lenN r + 2 /\ log_ok l
+  end.
+Proof.
+  intros r. unfold ssh1_read_mpint, read_full.
+  split_read 2 r l2 r1 S1; cbn [tick rbind rret rfail fst snd app].
+  2:{ cbn [log_cost alloc_sz]. split; [lia|log_tac]. }
+  set (n := (be16 l2 + 7) / 8). cbn [andb].
+  destruct (N.ltb_spec (lenN r1) n) as [L|L]; cbn [tick rbind rret rfail fst snd app].
+  { cbn [log_cost alloc_sz]. split; [lia|log_tac]. }
+  split_read n r1 b r2 S2; cbn [tick rbind rret rfail fst snd app log_cost alloc_sz].
+  - split; [lia|]. split; [lia|log_tac].
+  - lia.
+Qed.
+
+Lemma ssh1_string_spec : forall r,
+  match ssh1_read_string true r with
+  | (Ok (_, r'), l) => log_cost l + 2 * lenN r' <= 2 * lenN r /\ lenN r' <= lenN r /\ log_ok l
+  | (_, l) => log_cost l <= 2 * lenN r + 4 /\ log_ok l
+  end.
+Proof.
+  intros r. unfold ssh1_read_string, read_full.
+  split_read 4 r l4 r1 S1; cbn [tick rbind rret rfail fst snd app].
+  2:{ cbn [log_cost alloc_sz]. split; [lia|log_tac]. }
+  set (n := be32 l4). cbn [andb].
+  destruct (N.ltb_spec (lenN r1) n) as [L|L]; cbn [tick rbind rret rfail fst snd app].
+  { cbn [log_cost alloc_sz]. split; [lia|log_tac]. }
+  split_read n r1 b r2 S2; cbn [tick rbind rret rfail fst snd app log_cost alloc_sz].
+  - split; [lia|]. split; [lia|log_tac].
+  - lia.
+Qed.
+
+(* sequencing of two computations whose logs are known *)
+Lemma rbind_ok : forall A B (a : A) l1 (f : A -> cres B),
+  rbind (Ok a, l1) f = (fst (f a), l1 ++ snd (f a)).
+Proof. intros. cbn [rbind]. destruct (f a). reflexivity. Qed.
+Lemma rbind_err : forall A B e l1 (f : A -> cres B), rbind (Err e, l1) f = (Err e, l1).
+Proof. reflexivity. Qed.
+Lemma rbind_panic : forall A B e l1 (f : A -> cres B), rbind (Panic e, l1) f = (Panic e, l1).
+Proof. reflexivity. Qed.
+Lemma tick_eq : forall A a (k : cres A), tick a k = (fst k, a :: snd k).
+Proof. intros. unfold tick. destruct k. reflexivity. Qed.
+Lemma logged_eq : forall A l0 (k : cres A), logged l0 k = (fst k, l0 ++ snd k).
+Proof. intros. unfold logged. destruct k. reflexivity. Qed.
+
+Ltac step_simpl :=
+  unfold rret, rfail, rpanic;
+  rewrite ?rbind_ok, ?rbind_err, ?rbind_panic, ?tick_eq, ?logged_eq;
+  cbn [fst snd]; rewrite ?log_cost_app; cbn [log_cost alloc_sz]; rewrite ?log_cost_app; cbn [log_cost alloc_sz].
+
+Lemma ssh1_private_spec : forall comment n e r,
+  let m := ssh1_private true comment n e r in
+  log_cost (snd m) <= 2 * lenN r + 32 /\ log_ok (snd m).
+Proof.
+  intros comment n e r. unfold ssh1_private, read_full.
+  split_read 4 r abab r1 S1; step_simpl.
+  2:{ split; [lia|log_tac]. }
+  destruct (negb _); step_simpl.
+  { split; [lia|log_tac]. }
+  pose proof (ssh1_mpint_spec r1) as M1.
+  destruct (ssh1_read_mpint true r1) as [[[d r2]|e1|e1] l1]; step_simpl;
+    try (destruct M1 as [M1 O1]; split; [lia|log_tac]).
+  destruct M1 as [M1 [M1' O1]].
+  pose proof (ssh1_mpint_spec r2) as M2.
+  destruct (ssh1_read_mpint true r2) as [[[qi r3]|e2|e2] l2]; step_simpl;
+    try (destruct M2 as [M2 O2]; split; [lia|log_tac]).
+  destruct M2 as [M2 [M2' O2]].
+  pose proof (ssh1_mpint_spec r3) as M3.
+  destruct (ssh1_read_mpint true r3) as [[[q r4]|e3|e3] l3]; step_simpl;
+    try (destruct M3 as [M3 O3]; split; [lia|log_tac]).
+  destruct M3 as [M3 [M3' O3]].
+  pose proof (ssh1_mpint_spec r4) as M4.
+  destruct (ssh1_read_mpint true r4) as [[[p r5]|e4|e4] l4]; step_simpl;
+    [destruct M4 as [M4 [M4' O4]]|destruct M4 as [M4 O4]|destruct M4 as [M4 O4]];
+    (split; [lia|log_tac]).
+Qed.
+
+Lemma ssh1_parse_spec : forall data plain,
+  let m := ssh1_parse data plain in
+  log_cost (snd m) <= 10 * lenN data + 600 /\ log_ok (snd m).
+Proof.
+  intros data plain. unfold ssh1_parse, ssh1_parse_gen.
+  destruct (negb (prefix_of ssh1_header data)); step_simpl.
+  { split; [lia|log_tac]. }
+  pose proof (lenN_drop_le _ (length ssh1_header) data) as D.
+  set (r := drop (length ssh1_header) data) in *. unfold read_full.
+  split_read 9 r fixed r1 S1; step_simpl.
+  2:{ split; [lia|log_tac]. }
+  pose proof (ssh1_mpint_spec r1) as M1.
+  destruct (ssh1_read_mpint true r1) as [[[n r2]|e1|e1] l1]; step_simpl;
+    try (destruct M1 as [M1 O1]; split; [lia|log_tac]).
+  destruct M1 as [M1 [M1' O1]].
+  pose proof (ssh1_mpint_spec r2) as M2.
+  destruct (ssh1_read_mpint true r2) as [[[e r3]|e2|e2] l2]; step_simpl;
+    try (destruct M2 as [M2 O2]; split; [lia|log_tac]).
+  destruct M2 as [M2 [M2' O2]].
+  pose proof (ssh1_string_spec r3) as M3.
+  destruct (ssh1_read_string true r3) as [[[comment r4]|e3|e3] l3]; step_simpl;
+    try (destruct M3 as [M3 O3]; split; [lia|log_tac]).
+  destruct M3 as [M3 [M3' O3]].
+  destruct (nth 0 fixed 0 =? 3).
+  - step_simpl. pose proof (readall_cost_le (lenN r4)) as RA. unfold readall_cost in RA.
+    pose proof (log_ok_readall (lenN r4)) as RO.
+    destruct (negb (lenN r4 mod 8 =? 0)); step_simpl.
+    { split; [lia|log_tac]. }
+    destruct (N.eqb_spec (lenN plain) (lenN r4)) as [E|E]; cbn [negb]; step_simpl.
+    2:{ split; [lia|log_tac]. }
+    destruct (ssh1_private_spec comment n e plain) as [P1 P2].
+    split; [lia|log_tac].
+  - destruct (ssh1_private_spec comment n e r4) as [P1 P2].
+    split; [lia|log_tac].
+Qed.
+
+(* the code before the repair of F4: a 50-byte file asks for 2.5 GB *)
+Definition ssh1_f4_witness : bytes :=
+  ssh1_header ++ [0; 0;0;0;0; 0;0;0;0] ++ [0;0] ++ [0;0] ++ [154;0;0;0].
+
+Lemma ssh1_prefix_refuted :
+  lenN ssh1_f4_witness = 50 /\ 2583691264 <= cost_of (ssh1_parse_gen false ssh1_f4_witness []).
+Proof. vm_compute. split; [reflexivity|discriminate]. Qed.
+
+Lemma ssh1_f4_repaired : cost_of (ssh1_parse ssh1_f4_witness []) = 17.
+Proof. vm_compute. reflexivity. Qed.
+
+(* ------------------------------------------------------------------------------------- *)
+(* OpenPGP: MPI, lengths, packet bodies                                                   *)
+(* ------------------------------------------------------------------------------------- *)
+Lemma bytes_ok_app : forall a b, bytes_ok (a ++ b) = true -> bytes_ok a = true /\ bytes_ok b = true.
+Proof. intros a b H. unfold bytes_ok in *. rewrite forallb_app in H. now apply andb_prop in H. Qed.
+
+Lemma split_at_bytes_ok : forall n r a b, split_at n r = Some (a, b) -> bytes_ok r = true ->
+  bytes_ok a = true /\ bytes_ok b = true.
+Proof. intros. destruct (split_at_some _ _ _ _ H) as [-> _]. now apply bytes_ok_app. Qed.
+
+Lemma be16_bound : forall b, bytes_ok b = true -> be16 b <= 65535.
+Proof.
+  intros b H. unfold be16, be_to_N.
+  destruct b as [|x [|y b']]; cbn [take be_to_N_acc]; try lia;
+    unfold bytes_ok in H; cbn [forallb] in H; unfold byte_ok in H; lia.
+Qed.
+
+(* readMPI: at most 2 + 8192 bytes whatever the input says *)
+Lemma pgp_mpi_spec : forall r, bytes_ok r = true ->
+  let m := pgp_read_mpi r in
+  log_cost (snd m) <= 8194 /\ log_ok (snd m) /\
+  (forall a, In a (snd m) -> alloc_sz a <= 8192).
+Proof.
+  intros r B. unfold pgp_read_mpi, read_full.
+  split_read 2 r b r1 S1; step_simpl.
+  2:{ split; [lia|]. split; [log_tac|]. intros a [<-|[]]. cbn. lia. }
+  destruct (split_at_bytes_ok _ _ _ _ S1 B) as [Bb _].
+  pose proof (be16_bound b Bb) as B16.
+  assert (Hn : (be16 b + 7) / 8 <= 8192).
+  { assert ((be16 b + 7) / 8 < 8193) by (apply N.div_lt_upper_bound; lia). lia. }
+  set (n := (be16 b + 7) / 8) in *.
+  split_read n r1 mp r2 S2; step_simpl.
+  - split; [lia|]. split; [log_tac|]. intros a [<-|[<-|[]]]; cbn; lia.
+  - split; [lia|]. split; [log_tac|]. intros a [<-|[<-|[]]]; cbn; lia.
+Qed.
+
+Lemma pgp_length_spec : forall r,
+  match pgp_read_length r with
+  | (Ok (_, _, r'), l) => log_cost l = 4 /\ lenN r' + 1 <= lenN r /\ log_ok l
+  | (_, l) => log_cost l = 4 /\ log_ok l
+  end.
+Proof.
+  intros r. unfold pgp_read_length, read_full.
+  split_read 1 r b r1 S1; step_simpl.
+  2:{ split; [lia|log_tac]. }
+  destruct (nth 0 b 0 <? 192); step_simpl. { split; [lia|]. split; [lia|log_tac]. }
+  destruct (nth 0 b 0 <? 224); step_simpl.
+  { split_read 1 r1 c r2 S2; step_simpl; (split; [lia|]); [split; [lia|log_tac]|log_tac]. }
+  destruct (nth 0 b 0 <? 255); step_simpl. { split; [lia|]. split; [lia|log_tac]. }
+  split_read 4 r1 c r2 S2; step_simpl; (split; [lia|]); [split; [lia|log_tac]|log_tac].
+Qed.
+
+Lemma pgp_partial_body_spec : forall fuel rem r acc,
+  match pgp_partial_body fuel rem r acc with
+  | ((body, _, r'), l) =>
+      log_cost l + 4 * lenN body + 4 * lenN r' <= 4 * lenN r + 4 * lenN acc + 4 /\ log_ok l
+  end.
+Proof.
+  induction fuel as [|f IH]; intros rem r acc; cbn [pgp_partial_body].
+  - unfold cret. cbn [log_cost]. split; [lia|log_tac].
+  - split_read rem r chunk r1 S1.
+    2:{ unfold cret. rewrite lenN_app, lenN_nil. cbn [log_cost]. split; [lia|log_tac]. }
+    destruct (split_at_some _ _ _ _ S1) as [_ Lc].
+    pose proof (pgp_length_spec r1) as LS.
+    destruct (pgp_read_length r1) as [[[[len partial] r2]|e|e] l].
+    + destruct LS as [C [L O]]. destruct partial.
+      * specialize (IH len r2 (acc ++ chunk)).
+        destruct (pgp_partial_body f len r2 (acc ++ chunk)) as [[[body ok] r'] l2].
+        rewrite lenN_app in IH. destruct IH as [IH1 IH2]. rewrite log_cost_app.
+        split; [lia|log_tac].
+      * split_read len r2 lst r3 S2.
+        -- destruct (split_at_some _ _ _ _ S2) as [_ Ll]. rewrite !lenN_app. split; [lia|exact O].
+        -- rewrite !lenN_app, lenN_nil. split; [lia|exact O].
+    + destruct LS as [C O]. rewrite lenN_app, lenN_nil. split; [lia|exact O].
+    + destruct LS as [C O]. rewrite lenN_app, lenN_nil. split; [lia|exact O].
+Qed.
+
+Lemma pgp_body_spec : forall br r,
+  match pgp_read_body br r with
+  | ((body, _, r'), l) =>
+      log_ok l /\
+      match br with
+      | Partial _ => log_cost l + 4 * lenN body + 4 * lenN r' <= 4 * lenN r + 4
+      | _ => log_cost l = 0 /\ lenN body + lenN r' <= lenN r
+      end
+  end.
+Proof.
+  intros [n|rem|] r; cbn [pgp_read_body].
+  - split_read n r b r1 Sn; unfold cret; cbn [log_cost].
+    + destruct (split_at_some _ _ _ _ Sn) as [_ L]. split; [log_tac|]. split; lia.
+    + rewrite lenN_nil. split; [log_tac|]. split; lia.
+  - pose proof (pgp_partial_body_spec (S (length r)) rem r []) as P.
+    destruct (pgp_partial_body (S (length r)) rem r []) as [[[body ok] r'] l].
+    rewrite lenN_nil in P. destruct P as [P1 P2]. split; [exact P2|lia].
+  - unfold cret. cbn [log_cost]. rewrite lenN_nil. split; [log_tac|]. split; lia.
+Qed.
+
+Lemma pgp_header_spec : forall r,
+  match pgp_read_header r with
+  | (Ok (_, br, r1), l) =>
+      log_cost l <= 8 /\ lenN r1 + 1 <= lenN r /\ log_ok l /\
+      (match br with Partial _ => lenN r1 + 2 <= lenN r | _ => True end)
+  | (_, l) => log_cost l <= 8 /\ log_ok l
+  end.
+Proof.
+  intros r. unfold pgp_read_header. destruct r as [|b0 r1]; step_simpl.
+  { split; [lia|log_tac]. }
+  rewrite lenN_cons.
+  destruct (N.land b0 128 =? 0); step_simpl. { split; [lia|log_tac]. }
+  destruct (N.land b0 64 =? 0); step_simpl.
+  - destruct (N.land b0 3 =? 3); step_simpl.
+    { split; [lia|]. split; [lia|]. split; [log_tac|exact I]. }
+    unfold read_full. split_read (N.shiftl 1 (N.land b0 3)) r1 lb r2 Sn; step_simpl.
+    + split; [lia|]. split; [lia|]. split; [log_tac|exact I].
+    + split; [lia|log_tac].
+  - pose proof (pgp_length_spec r1) as LS.
+    destruct (pgp_read_length r1) as [[[[len partial] r2]|e|e] l]; step_simpl.
+    + destruct LS as [C [L O]]. split; [lia|]. split; [lia|]. split; [log_tac|]. destruct partial; [lia|exact I].
+    + destruct LS as [C O]. split; [lia|log_tac].
+    + destruct LS as [C O]. split; [lia|log_tac].
+Qed.
+
+Lemma pgp_next_spec : forall r,
+  match pgp_opaque_next r with
+  | (Ok (_, _, r2), l) => log_cost l + 520 * lenN r2 <= 520 * lenN r /\ lenN r2 < lenN r /\ log_ok l
+  | (_, l) => log_cost l <= 520 * lenN r + 1548 /\ log_ok l
+  end.
+Proof.
+  intros r. unfold pgp_opaque_next.
+  pose proof (pgp_header_spec r) as HS.
+  destruct (pgp_read_header r) as [[[[tag br] r1]|e|e] l]; step_simpl.
+  2,3: destruct HS as [C O]; split; [lia|exact O].
+  destruct HS as [C [L [O P]]].
+  pose proof (pgp_body_spec br r1) as BS.
+  destruct (pgp_read_body br r1) as [[[body ok] r2] l2].
+  destruct BS as [B2 B1].
+  pose proof (readall_cost_le (lenN body)) as RA. unfold readall_cost in RA.
+  pose proof (log_ok_readall (lenN body)) as RO.
+  destruct ok; step_simpl.
+  - split; [destruct br; lia|]. split; [destruct br; lia|log_tac].
+  - split; [destruct br; lia|log_tac].
+Qed.
+
+Lemma pgp_loop_spec : forall fuel r,
+  let m := pgp_opaque_loop fuel r in
+  log_cost (snd m) <= 520 * lenN r + 1548 /\ log_ok (snd m).
+Proof.
+  induction fuel as [|f IH]; intros r; cbn [pgp_opaque_loop].
+  - unfold cret. cbn. split; [lia|log_tac].
+  - pose proof (pgp_next_spec r) as NS.
+    destruct (pgp_opaque_next r) as [[[[tag body] r1]|e|e] l].
+    + destruct NS as [C [L O]]. specialize (IH r1). cbn zeta in IH.
+      destruct (pgp_opaque_loop f r1) as [[ps e] l2]. cbn [snd] in *.
+      destruct IH as [I1 I2]. rewrite log_cost_app. split; [lia|log_tac].
+    + cbn [snd]. exact NS.
+    + cbn [snd]. exact NS.
+Qed.
+
+Lemma pgp_opaque_spec : forall data,
+  cost_of (pgp_opaque_all data) <= 520 * lenN data + 1548 /\ log_ok (snd (pgp_opaque_all data)).
+Proof. intros. unfold pgp_opaque_all, cost_of. apply pgp_loop_spec. Qed.
+
+(* every made-from-length request of the packet loop is a fixed-size buffer *)
+Lemma pgp_opaque_makes_const : forall data sz rem,
+  In (Make sz rem) (snd (pgp_opaque_all data)) -> sz <= rem \/ sz <= fixed_max.
+Proof.
+  intros data sz rem H. destruct (pgp_opaque_spec data) as [_ O].
+  unfold log_ok in O. rewrite Forall_forall in O. exact (O _ H).
+Qed.
+
+(* ------------------------------------------------------------------------------------- *)
+(* DER: ParseRaw allocates 216 bytes per input byte at most; nesting depth <= length / 2   *)
+(* ------------------------------------------------------------------------------------- *)
+Lemma der_base128_len : forall fuel sh acc r v r' k,
+  der_base128 fuel sh acc r = Ok (v, r', k) -> lenN r' + 1 <= lenN r.
+Proof.
+  induction fuel as [|f IH]; intros sh acc r v r' k H; cbn [der_base128] in H; [discriminate|].
+  destruct r as [|b r1]; [discriminate|]. rewrite lenN_cons.
+  destruct (sh =? 5); [discriminate|].
+  destruct ((sh =? 0) && (b =? 128)); [discriminate|].
+  destruct (N.land b 128 =? 0).
+  - destruct (2147483647 <? acc * 128 + N.land b 127); [discriminate|]. inversion H; subst. lia.
+  - apply IH in H. lia.
+Qed.
+
+Lemma der_long_length_len : forall k acc r v r', der_long_length k acc r = Ok (v, r') -> lenN r' <= lenN r.
+Proof.
+  induction k as [|k IH]; intros acc r v r' H; cbn [der_long_length] in H.
+  - destruct (acc <? 128); [discriminate|]. inversion H; subst. lia.
+  - destruct r as [|b r1]; [discriminate|]. rewrite lenN_cons.
+    destruct (8388608 <=? acc); [discriminate|].
+    destruct (acc * 256 + b =? 0); [discriminate|]. apply IH in H. lia.
+Qed.
+
+Lemma der_hdr_len : forall r h r1, der_tag_and_length r = Ok (h, r1) -> lenN r1 + 2 <= lenN r.
+Proof.
+  intros r h r1 H. unfold der_tag_and_length in H.
+  destruct r as [|b r0]; [discriminate|]. rewrite lenN_cons.
+  assert (T : forall tag r2 tb,
+    (if N.land b 31 =? 31
+     then let* (t, r2, k) := der_base128 6 0 0 r0 in if t <? 31 then Err "non-minimal tag" else Ok (t, r2, k)
+     else Ok (N.land b 31, r0, 0)) = Ok (tag, r2, tb) -> lenN r2 <= lenN r0).
+  { intros tag r2 tb E. destruct (N.land b 31 =? 31).
+    - destruct (der_base128 6 0 0 r0) as [[[t r2'] k]|e|e] eqn:B; cbn [bind] in E; try discriminate.
+      destruct (t <? 31); [discriminate|]. inversion E; subst. apply der_base128_len in B. lia.
+    - inversion E; subst. lia. }
+  match type of H with context [bind ?X _] => destruct X as [[[tag r2] tb]|e|e] eqn:TG end; cbn [bind] in H; try discriminate.
+  specialize (T _ _ _ eq_refl). clear TG. rename T into TG.
+  destruct r2 as [|lb r3]; [discriminate|]. rewrite lenN_cons in TG.
+  destruct (N.land lb 128 =? 0).
+  - inversion H; subst. lia.
+  - destruct (N.land lb 127 =? 0); [discriminate|].
+    destruct (der_long_length (N.to_nat (N.land lb 127)) 0 r3) as [[len r4]|e|e] eqn:LL; cbn [bind] in H; try discriminate.
+    inversion H; subst. apply der_long_length_len in LL. lia.
+Qed.
+
+Lemma rmap_snd : forall A B (f : A -> B) m, snd (rmap f m) = snd m.
+Proof. reflexivity. Qed.
+Lemma rmap_fst_ok : forall A B (f : A -> B) m b, fst (rmap f m) = Ok b -> exists a, fst m = Ok a /\ b = f a.
+Proof. intros A B f [[a|e|e] l] b H; cbn in H; try discriminate. inversion H. now exists a. Qed.
+
+Lemma append_grow_cases : forall c cap,
+  cap <= 2 * c ->
+  let '(cap', lg) := append_grow sizeof_raw c cap in
+  cap' <= 2 * (c + 1) /\ log_cost lg + 176 * cap <= 176 * cap' /\ log_cost lg <= 176 * c + 88 /\ log_ok lg.
+Proof.
+  intros c cap H. unfold append_grow, sizeof_raw.
+  destruct (N.eqb_spec c cap) as [E|E].
+  - destruct (N.eqb_spec cap 0) as [Z|Z]; cbn [log_cost alloc_sz].
+    + subst. split; [lia|]. split; [lia|]. split; [lia|log_tac].
+    + split; [lia|]. split; [lia|]. split; [lia|log_tac].
+  - cbn [log_cost]. split; [lia|]. split; [lia|]. split; [lia|log_tac].
+Qed.
+
+Lemma der_items_spec : forall fuel rest c cap,
+  cap <= 2 * c ->
+  let m := der_parse_items fuel rest c cap in
+  log_cost (snd m) + 176 * cap <= 216 * lenN rest + 352 * c /\
+  log_ok (snd m) /\
+  (forall items, fst m = Ok items -> 2 * N.of_nat (raws_depth items) <= lenN rest).
+Proof.
+  induction fuel as [|f IH]; intros rest c cap Hc; cbn [der_parse_items].
+  { unfold rfail. cbn [fst snd log_cost]. split; [lia|]. split; [log_tac|discriminate]. }
+  destruct (der_tag_and_length rest) as [[h r1]|e|e] eqn:HD.
+  2,3: unfold rfail, rpanic; cbn [fst snd log_cost]; (split; [lia|]); (split; [log_tac|discriminate]).
+  apply der_hdr_len in HD.
+  split_read (h_len h) r1 content rest' S1.
+  2:{ unfold rfail. cbn [fst snd log_cost]. split; [lia|]. split; [log_tac|discriminate]. }
+  destruct (split_at_some _ _ _ _ S1) as [_ Lc].
+  rewrite tick_eq. unfold sizeof_rawvalue.
+  (* children *)
+  assert (CH : let ch := (if h_compound h then der_parse_items f content 0 0 else rret []) in
+               log_cost (snd ch) <= 216 * lenN content /\ log_ok (snd ch) /\
+               (forall items, fst ch = Ok items -> 2 * N.of_nat (raws_depth items) <= lenN content)).
+  { destruct (h_compound h).
+    - specialize (IH content 0 0 ltac:(lia)). cbn zeta in IH. destruct IH as [I1 [I2 I3]]. cbn zeta.
+      split; [lia|]. split; assumption.
+    - cbn zeta. unfold rret. cbn [fst snd log_cost]. split; [lia|]. split; [log_tac|].
+      intros items E. inversion E; subst. cbn. lia. }
+  cbn zeta in CH. destruct CH as [C1 [C2 C3]].
+  destruct (if h_compound h then der_parse_items f content 0 0 else rret []) as [[children|e|e] lch];
+    cbn [fst snd] in *; step_simpl.
+  2,3: (split; [lia|]); (split; [log_tac|discriminate]).
+  specialize (C3 children eq_refl).
+  pose proof (append_grow_cases c cap Hc) as AG.
+  destruct (append_grow sizeof_raw c cap) as [cap' lg]. destruct AG as [A1 [A2 [A4 A3]]].
+  step_simpl.
+  destruct rest' as [|x rest''].
+  - step_simpl. split; [lia|]. split; [log_tac|].
+    intros items E. inversion E; subst. cbn [raws_depth fold_right raw_depth].
+    fold (raws_depth children). lia.
+  - specialize (IH (x :: rest'') (c + 1) cap' A1). cbn zeta in IH. destruct IH as [I1 [I2 I3]].
+    rewrite rmap_snd. split; [lia|]. split; [log_tac|].
+    intros items E. apply rmap_fst_ok in E. destruct E as [tail [E1 ->]].
+    specialize (I3 tail E1). cbn [raws_depth fold_right raw_depth].
+    fold (raws_depth children). fold (raws_depth tail). lia.
+Qed.
+
+Lemma der_parse_spec : forall data,
+  cost_of (der_parse_raw data) <= 216 * lenN data /\ log_ok (snd (der_parse_raw data)).
+Proof.
+  intros. unfold der_parse_raw, cost_of.
+  destruct (der_items_spec (S (length data)) data 0 0 ltac:(lia)) as [H1 [H2 _]]. split; [lia|exact H2].
+Qed.
+
+(* recursion depth of ParseRaw: at most half the input length *)
+Lemma der_depth : forall data items l,
+  der_parse_raw data = (Ok items, l) -> (2 * raws_depth items <= length data)%nat.
+Proof.
+  intros data items l H. unfold der_parse_raw in H.
+  destruct (der_items_spec (S (length data)) data 0 0 ltac:(lia)) as [_ [_ H3]].
+  rewrite H in H3. specialize (H3 items eq_refl). rewrite lenN_length in H3. lia.
+Qed.
+
+(* ParseRaw makes no allocation from a length field at all: the log has growth entries only
+   (Bytes and FullBytes are sub-slices of the input) *)
+Definition is_grow (a : alloc) : Prop := match a with Grow _ => True | Make _ _ => False end.
+
+Lemma der_items_grow_only : forall fuel rest c cap,
+  Forall is_grow (snd (der_parse_items fuel rest c cap)).
+Proof.
+  induction fuel as [|f IH]; intros rest c cap; cbn [der_parse_items].
+  { unfold rfail. cbn [snd]. constructor. }
+  destruct (der_tag_and_length rest) as [[h r1]|e|e]; try (unfold rfail, rpanic; cbn [snd]; constructor).
+  destruct (split_at (h_len h) r1) as [[content rest']|]; [|unfold rfail; cbn [snd]; constructor].
+  rewrite tick_eq. cbn [snd]. constructor; [exact I|].
+  set (ch := if h_compound h then der_parse_items f content 0 0 else rret []).
+  assert (CH : Forall is_grow (snd ch)).
+  { subst ch. destruct (h_compound h); [apply IH|unfold rret; cbn [snd]; constructor]. }
+  destruct ch as [[children|e|e] lch]; cbn [snd] in CH; step_simpl; try exact CH.
+  assert (AG : Forall is_grow (snd (append_grow sizeof_raw c cap))).
+  { unfold append_grow. destruct (c =? cap); cbn [snd]; repeat constructor. }
+  destruct (append_grow sizeof_raw c cap) as [cap' lg]. cbn [snd] in AG. step_simpl.
+  apply Forall_app. split; [exact CH|]. apply Forall_app. split; [exact AG|].
+  destruct rest' as [|x r'']; [constructor|]. rewrite rmap_snd. apply IH.
+Qed.
+
+Lemma der_parse_grow_only : forall data a, In a (snd (der_parse_raw data)) -> exists s, a = Grow s.
+Proof.
+  intros data a H. pose proof (der_items_grow_only (S (length data)) data 0 0) as G.
+  rewrite Forall_forall in G. specialize (G a H). destruct a; [destruct G|now eexists].
+Qed.
+
+(* ------------------------------------------------------------------------------------- *)
+(* base64                                                                                 *)
+(* ------------------------------------------------------------------------------------- *)
+Lemma b64_decoded_len_le : forall e n, b64_decoded_len e n <= n.
+Proof.
+  intros e n. unfold b64_decoded_len. destruct (enc_padded e).
+  - pose proof (N.div_mod n 4 ltac:(lia)). lia.
+  - pose proof (N.div_mod (n * 6) 8 ltac:(lia)). pose proof (N.mod_lt (n * 6) 8 ltac:(lia)). lia.
+Qed.
+
+Lemma b64_spec : forall data,
+  cost_of (b64_decode_any data) <= lenN data /\ log_ok (snd (b64_decode_any data)).
+Proof.
+  intros data. unfold b64_decode_any, cost_of.
+  destruct (which_base64 data) as [e|]; step_simpl.
+  2:{ split; [lia|log_tac]. }
+  pose proof (b64_decoded_len_le e (lenN data)).
+  destruct (std_decode e data); step_simpl; (split; [lia|log_tac]).
+Qed.
+
+(* ------------------------------------------------------------------------------------- *)
+(* all modelled components of the repository's own code                                   *)
+(* ------------------------------------------------------------------------------------- *)
+Definition in_repo (comp : bytes) : bool :=
+  bytes_eqb comp (bs "readall") || bytes_eqb comp (bs "ssh1") || bytes_eqb comp (bs "pgplen") ||
+  bytes_eqb comp (bs "pgpmpi") || bytes_eqb comp (bs "pgpopaque") || bytes_eqb comp (bs "der") ||
+  bytes_eqb comp (bs "b64").
+
+Lemma readall_component : forall n, log_cost (readall_log (N.min n max_read_size)) <= 7 * n + 512.
+Proof. intros. pose proof (readall_cost_le (N.min n max_read_size)). unfold readall_cost in H. lia. Qed.
+
+Lemma alloc_linear : forall comp data aux l,
+  bytes_ok data = true -> in_repo comp = true -> component_log comp data aux = Some l ->
+  log_cost l <= 520 * lenN data + 8194 /\ log_ok l.
+Proof.
+  intros comp data aux l B R H. unfold component_log in H. unfold in_repo in R.
+  destruct (bytes_eqb comp (bs "readall")).
+  { inversion H; subst. pose proof (readall_component (lenN data)). split; [lia|apply log_ok_readall]. }
+  destruct (bytes_eqb comp (bs "ssh1")).
+  { inversion H; subst. destruct (ssh1_parse_spec data aux) as [S1 S2]. split; [lia|exact S2]. }
+  destruct (bytes_eqb comp (bs "pgplen")).
+  { inversion H; subst. pose proof (pgp_length_spec data) as P.
+    destruct (pgp_read_length data) as [[[[a b] c]|e|e] l0]; cbn [snd]; [destruct P as [P1 [_ P2]]|destruct P as [P1 P2]|destruct P as [P1 P2]]; (split; [lia|exact P2]). }
+  destruct (bytes_eqb comp (bs "pgpmpi")).
+  { inversion H; subst. destruct (pgp_mpi_spec data B) as [P1 [P2 _]]. split; [lia|exact P2]. }
+  destruct (bytes_eqb comp (bs "pgpopaque")).
+  { inversion H; subst. destruct (pgp_opaque_spec data) as [P1 P2]. unfold cost_of in P1. split; [lia|exact P2]. }
+  destruct (bytes_eqb comp (bs "der")).
+  { inversion H; subst. destruct (der_parse_spec data) as [P1 P2]. unfold cost_of in P1. split; [lia|exact P2]. }
+  destruct (bytes_eqb comp (bs "b64")).
+  { inversion H; subst. destruct (b64_spec data) as [P1 P2]. unfold cost_of in P1. split; [lia|exact P2]. }
+  cbn in R. discriminate.
+Qed.
+
+(* non-vacuity: a non-trivial input meets the hypotheses and has a non-trivial cost *)
+Example alloc_linear_example :
+  let data := ssh1_header ++ [0; 0;0;0;0; 0;0;0;0] ++ [0;8;200] ++ [0;2;3] ++ [0;0;0;2;104;105] ++ [1;2;1;2] ++ [0;1;1; 0;1;1; 0;1;1; 0;1;1] in
+  bytes_ok data = true /\ in_repo (bs "ssh1") = true /\
+  exists l, component_log (bs "ssh1") data [] = Some l /\ log_cost l = 55 /\ is_ok (fst (ssh1_parse data [])) = true.
+Proof. vm_compute. split; [reflexivity|]. split; [reflexivity|]. eexists. split; [reflexivity|]. split; reflexivity. Qed.
+
+(* ------------------------------------------------------------------------------------- *)
+(* third-party readers, as they are: refuted (known findings F25)                         *)
+(* ------------------------------------------------------------------------------------- *)
+(* JKS: magic, version 2, one entry; PrivateKeyEntry, alias "", date, key length 1 800 000 000 *)
+Definition jks_witness : bytes :=
+  jks_magic ++ [0;0;0;2] ++ [0;0;0;1] ++ [0;0;0;1] ++ [0;0] ++ [0;0;0;0;0;0;0;0] ++ [107;73;210;0].
+
+Lemma jks_refuted :
+  lenN jks_witness < 8192 /\ 1073741824 < cost_of (jks_parse jks_witness) /\
+  log_trusting (snd (jks_parse jks_witness)) = true.
+Proof. vm_compute. repeat split; reflexivity. Qed.
+
+(* RPM: lead (major version 3), one header with one INT32 index entry of count 0x20000000
+   and a one-byte store *)
+Definition rpm_witness : bytes :=
+  [237;171;238;219; 3;0] ++ repeat 0 90 ++
+  [142;173;232;1; 0;0;0;0; 0;0;0;1; 0;0;0;1] ++
+  [0;0;3;232; 0;0;0;4; 0;0;0;0; 32;0;0;0] ++ [0].
+
+Lemma rpm_refuted :
+  lenN rpm_witness < 8192 /\ 1073741824 < cost_of (rpm_parse rpm_witness) /\
+  log_trusting (snd (rpm_parse rpm_witness)) = true.
+Proof. vm_compute. repeat split; reflexivity. Qed.
